@@ -102,7 +102,8 @@ static std::string gen(const std::string &prop, uint64_t base, uint64_t idx, boo
     const BindFormat *shf = bind_formats[r.below(bind_nformats)];
     int shared_obj;
     bool shared_vss = r.coin();
-    unsigned sh_am = 0, sh_dt = 0, sh_plen = 0, sh_abytes = 0;
+    unsigned sh_am = 0, sh_dt = 0, sh_plen = 0, sh_abytes = 0, sh_total = 0;
+    int sh_inblock = -1;
     if (shared_vss) {
         static const unsigned dts[] = {0, 1, 2, 3, 4, 5, 6, 7, 8, 9, 0xA, 0xB, 0x80, 0x81, 0x82, 0x83, 0x84, 0x85, 0x86, 0x87, 0x88, 0x89, 0x8A, 0x8B};
         shf = find_format("Vss");
@@ -119,6 +120,11 @@ static std::string gen(const std::string &prop, uint64_t base, uint64_t idx, boo
         calllines.push_back(strf("call t=-1 fn=vss_encode obj=%d obj2=%d obj3=%d a=%u b=0x%x c=%u d=%u v=0x%llx", shared_obj, psrc, asrc, sh_am, sh_dt, sh_plen, sh_abytes,
                                  (unsigned long long)r.next()));
         calllines.push_back(strf("call t=-1 fn=vss_pad obj=%d b=%u", shared_obj, total));
+        // the same inputs (path, value, descriptors) are also shared read-only: callers encode them into messages of their own
+        sh_inblock = new_obj(-1, 64, true);
+        sh_total = total + pad;
+        calllines.push_back(strf("call t=-1 fn=vss_mkinput obj=%d obj2=%d obj3=%d a=%u b=0x%x c=%u d=%u v=0x%llx", sh_inblock, psrc, asrc, sh_am, sh_dt, sh_plen, sh_abytes,
+                                 (unsigned long long)r.next()));
     } else {
         shared_obj = new_obj(-1, shf->spec_bytes, true);
     }
@@ -168,6 +174,12 @@ static std::string gen(const std::string &prop, uint64_t base, uint64_t idx, boo
             calllines.push_back(strf("call t=%d fn=bad obj=%d fmt=%s f=%s via=%s v=0x%llx", t, p.obj, p.f->name, p.f->fields[r.below(p.f->nfields)].name, subs[r.below(13)],
                                      (unsigned long long)r.next()));
         } else if (k < 74) {  // read-only call on the shared PDU
+            if (shared_vss && r.chance(0.4)) {  // encode the shared read-only inputs into an own message
+                int msg = new_obj(t, sh_total);
+                calllines.push_back(strf("call t=%d fn=init obj=%d fmt=Vss via=cur", t, msg));
+                calllines.push_back(strf("call t=%d fn=vss_encode_from obj=%d obj2=%d", t, msg, sh_inblock));
+                continue;
+            }
             if (shared_vss && r.coin()) {
                 int pdst = sh_am == 1 ? -1 : new_obj(t, sh_plen ? sh_plen : 1);
                 int adst = vss_is_var(sh_dt) ? new_obj(t, sh_abytes ? sh_abytes : 1) : -1;
@@ -261,6 +273,7 @@ struct World {
     std::vector<Obj> objs;                 // sorted by address (allocation order)
     std::map<int, int> obj_index;          // id -> index
     std::vector<std::vector<Call>> prog;   // per task
+    std::map<int, size_t> inblock_ok;       // shared input blocks prepared by set-up -> bytes an encode from them produces
     std::vector<Call> setup;               // executed before the callers start (builds the shared read-only objects)
     std::vector<std::vector<uint64_t>> results;
     // scheduling
@@ -615,6 +628,20 @@ static uint64_t do_call(const Call &c, bool &skipped) {
         leave();
         return res;
     }
+    if (c.fn == "vss_mkinput") {  // set-up only: fills the shared input block (no library code involved)
+        if (tid >= 0 || o->size < DRV_VSS_INBLOCK_SIZE) { skipped = true; return 0; }
+        unsigned am = (unsigned)c.a, dt = (unsigned)c.b, plen = (unsigned)c.c, abytes = (unsigned)c.d;
+        if ((am != 1 && (!o2 || o2->size < plen)) || (vss_is_var(dt) && (!o3 || o3->size < abytes))) { skipped = true; return 0; }
+        drv_vss_mkinput(o->p, am, dt, (uint32_t)c.v, o2 ? (char *)o2->p : nullptr, (uint16_t)plen, c.v, o3 ? o3->p : nullptr, (uint16_t)abytes);
+        w.inblock_ok[c.obj] = 12 + (am == 1 ? 4 : 2 + plen) + (vss_is_var(dt) ? 2 + abytes : vss_scalar_bytes(dt));
+        return 0;
+    }
+    if (c.fn == "vss_encode_from") {
+        auto it = o2 ? w.inblock_ok.find(c.obj2) : w.inblock_ok.end();
+        if (!o2 || !o2->shared || it == w.inblock_ok.end() || o->size < it->second) { skipped = true; return 0; }
+        enter(); res = drv_vss_encode_from(o->p, o2->p); leave();
+        return res;
+    }
     if (c.fn == "vss_pad") {
         unsigned len = (unsigned)c.b, pad = (4 - len % 4) % 4;
         if (o->size < len + pad || len < 12) { skipped = true; return 0; }
@@ -784,7 +811,7 @@ static void exec(const std::string &text, bool verbose) {
         auto &pr = w.prog[t];
         pr.erase(std::remove_if(pr.begin(), pr.end(), [&](const Call &c) {
                      auto okobj = [&](int id, bool allow_shared) { if (id < 0) return true; Obj *o = obj(id); return o && (o->task == (int)t || (allow_shared && o->shared)); };
-                     if (!okobj(c.obj, true) || !okobj(c.obj2, false) || !okobj(c.obj3, false)) return true;
+                     if (!okobj(c.obj, true) || !okobj(c.obj2, c.fn == "vss_encode_from") || !okobj(c.obj3, false)) return true;
                      for (int i : c.objs) if (!okobj(i, false)) return true;
                      for (int i : c.objs2) if (!okobj(i, false)) return true;
                      return false;
